@@ -56,6 +56,18 @@ func Run(ctx *vrun.Ctx, prop string) error {
 				{Name: "flush4", N: 4, Works: "{1}", Flaws: `{}`, Flush: true, Graph: true, MaxPaths: 100000},
 			}
 		}
+	case "C04":
+		models = []ModelCfg{
+			{Name: "crash3", N: 3, Works: "{1,2}", Flaws: `{"connect"}`, Flush: true, Graph: true, MaxPaths: 250, Crash: true},
+			{Name: "crash4", N: 4, Works: "{1}", Flaws: `{}`, Graph: true, MaxPaths: 120, Crash: true, Nested: true},
+		}
+		if ctx.Thorough {
+			models = []ModelCfg{
+				{Name: "crash3", N: 3, Works: "{1,2}", Flaws: `{"connect"}`, Flush: true, Graph: true, MaxPaths: 4000, Crash: true, Nested: true},
+				{Name: "crash4", N: 4, Works: "{1,2}", Flaws: `{"connect"}`, Graph: true, MaxPaths: 3000, Crash: true, Nested: true},
+				{Name: "crash4f", N: 4, Works: "{1}", Flaws: `{}`, Flush: true, Graph: true, MaxPaths: 2000, Crash: true},
+			}
+		}
 	case "C17":
 		models = []ModelCfg{
 			{Name: "headers3", N: 3, Works: "{1}", Flaws: `{"context","connect"}`, Headers: true, Graph: true, MaxPaths: 3000},
